@@ -150,7 +150,8 @@ class Sim:
         if self.io == 0:
             self.io = 1
 
-    def do_close(self):
+    def do_close(self, reason=0):
+        """reason: the reason code of the v5 DISCONNECT (second slot of its wire entry); v3 has none: 0"""
         if self.ver == 3:
             if self.client:
                 sent, self.disc = self.disc, True
@@ -160,7 +161,7 @@ class Sim:
         elif not self.closed():
             sent, self.disc = self.disc, True
             if not sent:
-                self.enc_packet(7, 0)
+                self.enc_packet(7, reason)
             self.io_close()
         self.clear_queues()
 
@@ -207,11 +208,11 @@ class Sim:
         if self.io != 0 or k == 0 or k > 5:
             return
         if pid == 0:
-            self.do_close()
+            self.do_close(131)                 # control path: Disconnect::from_proto_error -> ImplementationSpecificError
         elif k in (4, 5) and not self.client:
             return
         elif not self.pkt_ack_inner(k, pid):
-            self.do_close()
+            self.do_close(131)                 # pkt_ack: close(Some(Disconnect { ImplementationSpecificError }))
 
     def wait_publish_response(self, pid, ack, rem, tag, big=False):
         if self.srem:
